@@ -244,6 +244,7 @@ class Params:
         self.allow_signed = True
         self.big_prob = 0.05
         self.pascal_fields = False
+        self.enum_nonzero_first = 0.0   # probability that an enum's first member is not 0 (C02 finding enum-default)
         self.cross_nested = False   # reference Outer.Inner of an imported file (C10 finding py-nested-import)
         for k, v in kw.items():
             if not hasattr(self, k):
@@ -379,8 +380,12 @@ class Gen:
                 vals.add(self.rng.randrange(1 << n))
         vals = list(vals)
         self.rng.shuffle(vals)
-        if 0 in vals and self.rng.random() < 0.85:      # zero member first (usual style)
-            vals.remove(0)
+        if self.rng.random() < self.p.enum_nonzero_first and len(vals) > 1 or (1 << n) == 1:
+            if vals[0] == 0 and len(vals) > 1:
+                vals[0], vals[1] = vals[1], vals[0]
+        else:                                           # zero member first (usual style)
+            if 0 in vals:
+                vals.remove(0)
             vals.insert(0, 0)
         t.members = [(self._fresh("upper"), v) for v in vals]
         self._finish(t)
